@@ -218,6 +218,31 @@ def douglas_local(pm):
         code = replace_tensor(subst(g0.term, {ph("A", 0): a, ph("K", 1): k}), "y", y_entry)
         out.append(("Douglas: direction of leaf_scores_", "exact" if is_zero(code - ref) else "different",
                     "" if is_zero(code - ref) else f"code - chain rule = {repr(code - ref)[:200]}"))
+    # ---- (1b) gradient on the leaf memberships: the [N, A] array that the Kronecker marginalisation starts from
+    site_g = "Douglas: gradient on the leaf memberships"
+    cands = []
+    for st in f.body:
+        if isinstance(st, ast.Assign) and len(st.targets) == 1 and isinstance(st.targets[0], ast.Name):
+            v_ = I.env.get(st.targets[0].id)
+            if isinstance(v_, TArr) and list(v_.shape) == ["N", "A"] and st.targets[0].id not in [c_[0] for c_ in cands]:
+                cands.append((st.targets[0].id, v_))
+        if isinstance(st, ast.Assign) and norm_src(st.targets[0]) == "updates":
+            break
+    if not cands:
+        out.append((site_g, "undecided", "no [samples x leaves] array is computed before the updates are built"))
+    else:
+        n, a = fresh("N"), fresh("A")
+        n2, l = fresh("N"), fresh("K")
+        ref = mk_sum([(n2, "N"), (l, "K")], Poly.atom(mk_var("g", (n2, l))) * diff(y_entry((n2, l)), "L", (n, a)))
+        verdicts = []
+        for name_, arr in cands:
+            code = replace_tensor(subst(arr.term, {ph("N", 0): n, ph("A", 1): a}), "y", y_entry)
+            verdicts.append((name_, is_zero(code - ref), code - ref))
+        good = [v_ for v_ in verdicts if v_[1]]
+        if good:
+            out.append((site_g, "exact", f"name={good[0][0]}"))
+        else:
+            out.append((site_g, "different", f"`{verdicts[0][0]}` - chain rule = {repr(verdicts[0][2])[:200]}"))
     # ---- (2) the softmax of one binning, inside the loop over the features
     loops = [n_ for n_ in f.body if isinstance(n_, ast.For)]
     site = "Douglas: gradient on the bin logits"
